@@ -76,6 +76,8 @@ def build_response(spec: dict, req: Req | None, idx: int) -> tuple[bytes, bool, 
     version = spec.get("version", "HTTP/1.1")
     lines = [f"{version} {status} {reason}".encode("latin-1")]
     for k, v in spec.get("headers") or []:
+        if req is not None and "{target}" in str(v):
+            v = str(v).replace("{target}", req.target)  # e.g. a redirect back to the same resource
         lines.append(f"{k}: {v}".encode("latin-1"))
     payload = b""
     if bodyless and not spec.get("force_body"):
